@@ -601,7 +601,7 @@ type pathEnd struct {
 //   - arrivals at a block with the same event history, boolean phi choices and
 //     loop state are merged, so branches without events do not multiply paths.
 func (w *World) enumPaths(fn *ssa.Function, eval func(cond ssa.Value) (val bool, known bool), event func(in ssa.Instruction) string, max int) ([]pathEnd, bool) {
-	e := &enumerator{w: w, eval: eval, event: event, max: max, complete: true, evCache: map[ssa.Instruction]string{}, hasEv: map[*ssa.Function]int{}, pathSensitiveEvents: w.psEvents}
+	e := &enumerator{w: w, eval: eval, event: event, max: max, complete: true, evCache: map[ssa.Instruction]string{}, hasEv: map[*ssa.Function]int{}, pathSensitiveEvents: w.psEvents, expandPanics: w.expandPanics, expandAll: w.expandAll, maxDepth: w.enumDepth}
 	if len(fn.Blocks) == 0 {
 		return nil, true
 	}
@@ -636,6 +636,12 @@ type enumerator struct {
 	// fnEnv: function values bound to function-typed parameters of the helpers
 	// being expanded (innermost last)
 	fnEnv []map[*ssa.Parameter]ssa.Value
+	// maxDepth: how deep event-bearing callees are expanded (default 2)
+	maxDepth int
+	// expandPanics: also expand callees that contain a panic
+	expandPanics bool
+	expandAll    bool
+	hdrMemo      map[*ssa.BasicBlock]*ssa.BasicBlock
 }
 
 type pathState struct {
@@ -645,6 +651,24 @@ type pathState struct {
 	callTerm map[*ssa.Call]string
 	// defers registered on this path of the activation (run at RunDefers)
 	defers []*ssa.Defer
+	// ival: concrete integer values of phis on this path (loop indices over literal tables)
+	ival map[*ssa.Phi]int64
+	// mem: local arrays / slices written at concrete indices on this path:
+	// the value stored (as the path carries it) and its canonical form at that time
+	mem map[memKey]memVal
+	// concrete: blocks whose branch the path decided by integer evaluation (headers
+	// of loops over literal tables: these may be unrolled)
+	concrete map[*ssa.BasicBlock]bool
+}
+
+type memKey struct {
+	base ssa.Value
+	idx  int64
+}
+
+type memVal struct {
+	v ssa.Value
+	s string
 }
 
 func (e *enumerator) label(in ssa.Instruction, depth int) string {
@@ -675,6 +699,16 @@ func (e *enumerator) bearsEvents(fn *ssa.Function, d int) bool {
 	}
 	e.hasEv[fn] = 3
 	res := false
+	// on request, a helper that can panic is walked in line (its panic is then decided
+	// with everything the path knows: loop indices, local arrays, table elements)
+	if e.expandPanics && hasPanic(fn) {
+		res = true
+	}
+	// on request, every module function outside the ledger package is walked in line
+	// (its calls through handed-down values are then resolved with the caller's arguments)
+	if e.expandAll && e.w.InModule(fn) && !inLedgerPkg(e.w, fn) {
+		res = true
+	}
 	for _, b := range fn.Blocks {
 		for _, in := range b.Instrs {
 			if e.event(in) != "" {
@@ -713,7 +747,7 @@ func (e *enumerator) walkFn(fn *ssa.Function, ev []string, depth int, k func(ev 
 	act := e.nAct
 	reach := blockReach(fn)
 	visited := map[string]bool{}
-	st := &pathState{onPath: map[*ssa.BasicBlock]int{}, phi: map[*ssa.Phi]ssa.Value{}}
+	st := &pathState{onPath: map[*ssa.BasicBlock]int{}, phi: map[*ssa.Phi]ssa.Value{}, ival: map[*ssa.Phi]int64{}, mem: map[memKey]memVal{}}
 	sig := func(b *ssa.BasicBlock, from int, ev []string) string {
 		var lp []string
 		for ob, c := range st.onPath {
@@ -741,9 +775,31 @@ func (e *enumerator) walkFn(fn *ssa.Function, ev []string, depth int, k func(ev 
 			}
 		}
 		var saved []struct {
-			p *ssa.Phi
-			v ssa.Value
-			h bool
+			p  *ssa.Phi
+			v  ssa.Value
+			h  bool
+			iv int64
+			ih bool
+		}
+		// concrete values of the incoming integers, computed before any phi of the block changes
+		type newInt struct {
+			p  *ssa.Phi
+			v  int64
+			ok bool
+		}
+		var ints []newInt
+		for _, in := range b.Instrs {
+			ph, ok := in.(*ssa.Phi)
+			if !ok {
+				break
+			}
+			if idx >= 0 {
+				if iv, okI := e.evalInt(ph.Edges[idx], st, 0); okI {
+					ints = append(ints, newInt{ph, iv, true})
+				} else {
+					ints = append(ints, newInt{ph, 0, false})
+				}
+			}
 		}
 		for _, in := range b.Instrs {
 			ph, ok := in.(*ssa.Phi)
@@ -751,13 +807,23 @@ func (e *enumerator) walkFn(fn *ssa.Function, ev []string, depth int, k func(ev 
 				break
 			}
 			old, had := st.phi[ph]
+			oi, hi := st.ival[ph]
 			saved = append(saved, struct {
-				p *ssa.Phi
-				v ssa.Value
-				h bool
-			}{ph, old, had})
+				p  *ssa.Phi
+				v  ssa.Value
+				h  bool
+				iv int64
+				ih bool
+			}{ph, old, had, oi, hi})
 			if idx >= 0 {
 				st.phi[ph] = ph.Edges[idx]
+			}
+		}
+		for _, ni := range ints {
+			if ni.ok {
+				st.ival[ni.p] = ni.v
+			} else {
+				delete(st.ival, ni.p)
 			}
 		}
 		walk(b, 0, ev)
@@ -766,6 +832,11 @@ func (e *enumerator) walkFn(fn *ssa.Function, ev []string, depth int, k func(ev 
 				st.phi[sv.p] = sv.v
 			} else {
 				delete(st.phi, sv.p)
+			}
+			if sv.ih {
+				st.ival[sv.p] = sv.iv
+			} else {
+				delete(st.ival, sv.p)
 			}
 		}
 	}
@@ -782,7 +853,7 @@ func (e *enumerator) walkFn(fn *ssa.Function, ev []string, depth int, k func(ev 
 				k(ev, nil, "back")
 				return
 			}
-			if st.onPath[b] >= 2 {
+			if st.onPath[b] >= e.loopLimit(b, st) {
 				k(ev, nil, "loop")
 				return
 			}
@@ -825,7 +896,26 @@ func (e *enumerator) walkFn(fn *ssa.Function, ev []string, depth int, k func(ev 
 						}
 					}
 				}
-				if cal != nil && cal != fn && depth < 2 && lbl == "" && e.bearsEvents(cal, 0) && len(cal.Params) == len(callArgs) {
+				if t.Common().IsInvoke() {
+					// a method of an interface value whose dynamic type the path determines (an
+					// element of a literal table of handlers)
+					iv := e.resolve(t.Common().Value, st)
+					if pr, isParam := iv.(*ssa.Parameter); isParam {
+						for q := len(e.fnEnv) - 1; q >= 0; q-- {
+							if v2, ok := e.fnEnv[q][pr]; ok {
+								iv = v2
+								break
+							}
+						}
+					}
+					if mi, isMI := iv.(*ssa.MakeInterface); isMI {
+						if m := e.w.Prog.LookupMethod(mi.X.Type(), t.Common().Method.Pkg(), t.Common().Method.Name()); m != nil && e.w.InModule(m) {
+							cal = m
+							callArgs = append([]ssa.Value{mi.X}, t.Common().Args...)
+						}
+					}
+				}
+				if cal != nil && cal != fn && depth < e.depthLimit() && lbl == "" && e.bearsEvents(cal, 0) && len(cal.Params) == len(callArgs) {
 					env := map[*ssa.Parameter]string{}
 					for j, p := range cal.Params {
 						// arguments are printed with helper results resolved, so a value
@@ -839,8 +929,19 @@ func (e *enumerator) walkFn(fn *ssa.Function, ev []string, depth int, k func(ev 
 					// function values handed down (a closure to be called by the helper)
 					fenv := map[*ssa.Parameter]ssa.Value{}
 					for j, p := range cal.Params {
-						if _, isSig := p.Type().Underlying().(*types.Signature); isSig {
-							fenv[p] = e.resolve(callArgs[j], st)
+						switch p.Type().Underlying().(type) {
+						case *types.Signature, *types.Interface:
+							av := e.resolve(callArgs[j], st)
+							// an argument that is itself a parameter bound further up
+							if pr, isParam := av.(*ssa.Parameter); isParam {
+								for q := len(e.fnEnv) - 1; q >= 0; q-- {
+									if v2, ok := e.fnEnv[q][pr]; ok {
+										av = v2
+										break
+									}
+								}
+							}
+							fenv[p] = av
 						}
 					}
 					e.fnEnv = append(e.fnEnv, fenv)
@@ -876,7 +977,7 @@ func (e *enumerator) walkFn(fn *ssa.Function, ev []string, depth int, k func(ev 
 				// a callee that is not expanded may still never return under the
 				// current abstract input (it panics on every feasible path): the
 				// caller's path ends here
-				if cal != nil && cal != fn && depth < 2 && e.w.InModule(cal) && cal.Blocks != nil && len(cal.Params) == len(t.Common().Args) && hasPanic(cal) {
+				if cal != nil && cal != fn && depth < e.depthLimit() && e.w.InModule(cal) && cal.Blocks != nil && len(cal.Params) == len(t.Common().Args) && hasPanic(cal) {
 					env := map[*ssa.Parameter]string{}
 					for j, p := range cal.Params {
 						env[p] = e.w.Canon(e.resolve(t.Common().Args[j], st))
@@ -887,6 +988,26 @@ func (e *enumerator) walkFn(fn *ssa.Function, ev []string, depth int, k func(ev 
 					if !returns {
 						k(ev, nil, "panic")
 						return
+					}
+				}
+			case *ssa.Store:
+				// a write into a local array / slice at a concrete index
+				if ia, isIA := t.Addr.(*ssa.IndexAddr); isIA {
+					if base := localArrayBase(ia.X); base != nil {
+						if ix, okI := e.evalInt(ia.Index, st, 0); okI {
+							key := memKey{base, ix}
+							old, had := st.mem[key]
+							rv := e.resolve(t.Val, st)
+							e.w.cur = &pathCtxt{st: st, eval: e.eval}
+							st.mem[key] = memVal{rv, e.w.canonOnPathFallible(rv)}
+							defer func() {
+								if had {
+									st.mem[key] = old
+								} else {
+									delete(st.mem, key)
+								}
+							}()
+						}
 					}
 				}
 			case *ssa.Defer:
@@ -903,7 +1024,7 @@ func (e *enumerator) walkFn(fn *ssa.Function, ev []string, depth int, k func(ev 
 						if sc := d.Common().StaticCallee(); sc != nil {
 							cal = sc
 						}
-						if cal == nil || cal == fn || depth >= 2 || !e.bearsEvents(cal, 0) || len(cal.Params) != len(d.Common().Args) {
+						if cal == nil || cal == fn || depth >= e.depthLimit() || !e.bearsEvents(cal, 0) || len(cal.Params) != len(d.Common().Args) {
 							continue
 						}
 						env := map[*ssa.Parameter]string{}
@@ -944,6 +1065,35 @@ func (e *enumerator) walkFn(fn *ssa.Function, ev []string, depth int, k func(ev 
 				return
 			case *ssa.If:
 				v, known := e.w.evalBool(t.Cond, st, e.eval, 0)
+				if !known {
+					// an integer comparison the path decides (index of a loop over a literal table)
+					if bo, isBO := t.Cond.(*ssa.BinOp); isBO {
+						if a, ok1 := e.evalInt(bo.X, st, 0); ok1 {
+							if c, ok2 := e.evalInt(bo.Y, st, 0); ok2 {
+								switch bo.Op {
+								case token.LSS:
+									v, known = a < c, true
+								case token.LEQ:
+									v, known = a <= c, true
+								case token.GTR:
+									v, known = a > c, true
+								case token.GEQ:
+									v, known = a >= c, true
+								case token.EQL:
+									v, known = a == c, true
+								case token.NEQ:
+									v, known = a != c, true
+								}
+								if known {
+									if st.concrete == nil {
+										st.concrete = map[*ssa.BasicBlock]bool{}
+									}
+									st.concrete[b] = true
+								}
+							}
+						}
+					}
+				}
 				cs, cs2 := "", ""
 				if e.w.branchMarkers {
 					cs = e.w.Canon(t.Cond)
@@ -1088,6 +1238,168 @@ func (w *World) CalleeOnPath(c ssa.CallInstruction) (*ssa.Function, ssa.Value) {
 	return w.calleeOfValue(w.phiOnPath(c.Common().Value))
 }
 
+func (e *enumerator) depthLimit() int {
+	if e.maxDepth > 0 {
+		return e.maxDepth
+	}
+	return 2
+}
+
+// memCellOf: v reads one cell of a local aggregate — `*(&a[i])`, or `(*a)[i]` on
+// an array value loaded as a whole; returns the aggregate and the index value.
+func memCellOf(v ssa.Value) (ssa.Value, ssa.Value, bool) {
+	switch x := v.(type) {
+	case *ssa.UnOp:
+		if x.Op == token.MUL {
+			if ia, ok := x.X.(*ssa.IndexAddr); ok {
+				if base := localArrayBase(ia.X); base != nil {
+					return base, ia.Index, true
+				}
+			}
+		}
+	case *ssa.Index:
+		if ld, ok := x.X.(*ssa.UnOp); ok && ld.Op == token.MUL {
+			if base := localArrayBase(ld.X); base != nil {
+				return base, x.Index, true
+			}
+		}
+	}
+	return nil, nil, false
+}
+
+// localArrayBase: the local aggregate (array alloc, make([]T, n)) an indexed
+// address refers to, through slicing of the whole array; nil for anything else.
+func localArrayBase(v ssa.Value) ssa.Value {
+	for i := 0; i < 4; i++ {
+		switch x := v.(type) {
+		case *ssa.Alloc:
+			if _, isArr := deref(x.Type()).Underlying().(*types.Array); isArr {
+				return x
+			}
+			return nil
+		case *ssa.MakeSlice:
+			return x
+		case *ssa.Slice:
+			if x.Low != nil {
+				if k, ok := constInt(x.Low); !ok || k != 0 {
+					return nil
+				}
+			}
+			v = x.X
+		default:
+			return nil
+		}
+	}
+	return nil
+}
+
+// evalInt: the concrete value of an integer on the current path (constants, loop
+// indices bound by the path, sums and differences, lengths of local aggregates).
+func (e *enumerator) evalInt(v ssa.Value, st *pathState, d int) (int64, bool) {
+	return evalIntSt(v, st, d)
+}
+
+func evalIntSt(v ssa.Value, st *pathState, d int) (int64, bool) {
+	if d > 8 {
+		return 0, false
+	}
+	switch x := v.(type) {
+	case *ssa.Const:
+		return constInt(x)
+	case *ssa.Phi:
+		if st != nil {
+			if iv, ok := st.ival[x]; ok {
+				return iv, true
+			}
+		}
+	case *ssa.Convert:
+		return evalIntSt(x.X, st, d+1)
+	case *ssa.BinOp:
+		a, ok1 := evalIntSt(x.X, st, d+1)
+		b, ok2 := evalIntSt(x.Y, st, d+1)
+		if ok1 && ok2 {
+			switch x.Op {
+			case token.ADD:
+				return a + b, true
+			case token.SUB:
+				return a - b, true
+			case token.MUL:
+				return a * b, true
+			}
+		}
+	case *ssa.Call:
+		if bi, ok := x.Common().Value.(*ssa.Builtin); ok && (bi.Name() == "len" || bi.Name() == "cap") && len(x.Common().Args) == 1 {
+			return lenOfSt(x.Common().Args[0], st, d+1)
+		}
+	}
+	return 0, false
+}
+
+// lenOf: the length of a local aggregate whose size the code fixes.
+func lenOfSt(v ssa.Value, st *pathState, d int) (int64, bool) {
+	switch x := v.(type) {
+	case *ssa.Slice:
+		if x.Low == nil && x.High == nil {
+			if a, ok := x.X.(*ssa.Alloc); ok {
+				if arr, isArr := deref(a.Type()).Underlying().(*types.Array); isArr {
+					return arr.Len(), true
+				}
+			}
+		}
+	case *ssa.MakeSlice:
+		return evalIntSt(x.Len, st, d+1)
+	case *ssa.UnOp:
+		if x.Op == token.MUL {
+			if a, ok := x.X.(*ssa.Alloc); ok {
+				if arr, isArr := deref(a.Type()).Underlying().(*types.Array); isArr {
+					return arr.Len(), true
+				}
+			}
+		}
+	case *ssa.Alloc:
+		if arr, isArr := deref(x.Type()).Underlying().(*types.Array); isArr {
+			return arr.Len(), true
+		}
+	}
+	return 0, false
+}
+
+// loopLimit: a loop whose exit test the path decides concretely (a loop over a
+// literal table) may be unrolled; any other loop is cut after one pass.
+func (e *enumerator) loopLimit(b *ssa.BasicBlock, st *pathState) int {
+	if len(st.concrete) == 0 {
+		return 2
+	}
+	if st.concrete[b] {
+		return 12
+	}
+	// a block of the body of such a loop
+	if e.hdrMemo == nil {
+		e.hdrMemo = map[*ssa.BasicBlock]*ssa.BasicBlock{}
+	}
+	h, ok := e.hdrMemo[b]
+	if !ok {
+		h = loopHeaderOf(b)
+		e.hdrMemo[b] = h
+	}
+	for h != nil {
+		if st.concrete[h] {
+			return 12
+		}
+		// an enclosing loop
+		var outer *ssa.BasicBlock
+		for _, c := range h.Parent().Blocks {
+			if c != h && c.Dominates(h) && reachesBlock(h, c) && len(c.Preds) > 1 {
+				if outer == nil || outer.Dominates(c) {
+					outer = c
+				}
+			}
+		}
+		h = outer
+	}
+	return 2
+}
+
 func isBoolType(t types.Type) bool {
 	b, ok := t.Underlying().(*types.Basic)
 	return ok && b.Info()&types.IsBoolean != 0
@@ -1096,6 +1408,18 @@ func isBoolType(t types.Type) bool {
 // resolve replaces a phi by the value of the edge the current path came by.
 func (e *enumerator) resolve(v ssa.Value, st *pathState) ssa.Value {
 	for i := 0; i < 8; i++ {
+		// a load from a local array cell written on this path
+		if st != nil && len(st.mem) > 0 {
+			if base, idx, isCell := memCellOf(v); isCell {
+				if ix, okI := e.evalInt(idx, st, 0); okI {
+					if mv, ok := st.mem[memKey{base, ix}]; ok {
+						v = mv.v
+						continue
+					}
+				}
+				return v
+			}
+		}
 		ph, ok := v.(*ssa.Phi)
 		if !ok {
 			return v
@@ -1431,6 +1755,17 @@ func (w *World) ResolveOnPath(v ssa.Value) ssa.Value {
 
 func (w *World) resolveValue(v ssa.Value, st *pathState, eval func(ssa.Value) (bool, bool), depth int) ssa.Value {
 	for i := 0; i < 12; i++ {
+		// a cell of a local array written on this path
+		if st != nil && len(st.mem) > 0 {
+			if base, idx, isCell := memCellOf(v); isCell {
+				if ix, ok := evalIntSt(idx, st, 0); ok {
+					if mv, ok := st.mem[memKey{base, ix}]; ok && mv.v != v {
+						v = mv.v
+						continue
+					}
+				}
+			}
+		}
 		switch x := v.(type) {
 		case *ssa.Phi:
 			if st != nil {
@@ -1523,8 +1858,12 @@ func (w *World) returnedValues(fn *ssa.Function, idx int, eval func(ssa.Value) (
 	var walk func(b, pred *ssa.BasicBlock)
 	walk = func(b, pred *ssa.BasicBlock) {
 		budget--
-		if budget < 0 || st.onPath[b] >= 2 {
+		if budget < 0 {
 			complete = false
+			return
+		}
+		if st.onPath[b] >= 2 {
+			// a further iteration of a loop returns no SSA value the first did not
 			return
 		}
 		st.onPath[b]++
@@ -1696,7 +2035,10 @@ func (w *World) valueIs(v ssa.Value, pred func(string) bool) bool {
 	if cal == nil || !w.InModule(cal) || cal.Blocks == nil {
 		return false
 	}
+	savedSh := w.shallowResolve
+	w.shallowResolve = true // the values as the helper writes them (not what its own callees compute them from)
 	vals, complete := w.returnedValues(cal, idx, func(ssa.Value) (bool, bool) { return false, false }, 1)
+	w.shallowResolve = savedSh
 	if !complete || len(vals) == 0 {
 		return false
 	}
